@@ -335,6 +335,40 @@ theorem lexChar_ident (st : St) {c : UInt8} (r : Bytes) (hc : Path.IsIdentStart 
   simp [lexChar, lexChar2, lexChar3, lexChar4, h1, h2, h3, h4, h5, h6, h7, h8, h9, h10, h11, h12, h13, h14, h15, h16, h17,
     h18, h19]
 
+theorem lexChar_high (st : St) {c : UInt8} (r : Bytes) (hc : c.toNat ≥ 128) :
+    lexChar st c r = if operCtx st.acc then lexOper st else lexName st := by
+  have n : ∀ k : UInt8, k.toNat < 128 → (c == k) = false := fun k hk => Path.beq_false_of_toNat_ne (by omega)
+  have d : Path.isDigit c = false := by simp [Path.isDigit]; omega
+  simp [lexChar, lexChar2, lexChar3, lexChar4, d, n 0x28 (by decide), n 0x29 (by decide), n 0x5b (by decide), n 0x5d (by decide),
+    n 0x2e (by decide), n 0x40 (by decide), n 0x2c (by decide), n 0x27 (by decide), n 0x22 (by decide), n 0x24 (by decide),
+    n 0x2f (by decide), n 0x21 (by decide), n 0x3c (by decide), n 0x3e (by decide), n 0x7c (by decide), n 0x2b (by decide),
+    n 0x2d (by decide), n 0x3d (by decide)]
+
+/-- the first byte of an NCName is a letter, `_`, or a byte ≥ 0x80 -/
+theorem ncname_first {s : Bytes} {n : Nat} (h : Path.ncname s = some n) :
+    ∃ c r, s = c :: r ∧ (Path.IsIdentStart c ∨ c.toNat ≥ 128) := by
+  cases s with
+  | nil => simp [Path.ncname, Path.decodeCp] at h
+  | cons c r =>
+    refine ⟨c, r, rfl, ?_⟩
+    by_cases hc : c.toNat < 128
+    · left
+      unfold Path.ncname at h
+      have hd : Path.decodeCp (c :: r) = none ∨ Path.decodeCp (c :: r) = some (c.toNat, 1) := by
+        simp only [Path.decodeCp, hc, if_true]; split <;> simp
+      rcases hd with hd | hd
+      · simp [hd] at h
+      · simp only [hd] at h
+        split at h
+        · cases h
+        · next hns =>
+          simp only [Bool.or_eq_true, Bool.not_eq_true', beq_iff_eq, not_or, Bool.not_eq_false] at hns
+          have h1 := hns.1
+          simp only [Path.isNameStartCp, Bool.or_eq_true, Bool.and_eq_true, decide_eq_true_eq, beq_iff_eq, bne_iff_ne] at h1
+          unfold Path.IsIdentStart
+          omega
+    · right; omega
+
 theorem identStart_not_ws {c : UInt8} (hc : Path.IsIdentStart c) : Path.isWs c = false := by
   unfold Path.IsIdentStart at hc
   have a : (c == 0x20) = false := Path.beq_false_of_toNat_ne (by simp; omega)
@@ -884,9 +918,21 @@ theorem reach_from_nil {a c : St} (h : Reach a c) (ha : a.rest = []) : c = a := 
     rw [hp] at hs; cases hs
 
 /-- the tokenizer on the canonical text of `e` stores exactly the tokens of `rtoks e` (kinds and texts) -/
-theorem lex_render (e : Expr) (hw : wf e = true) : (lex (render e)).toOption.map (·.map ptOf) = some (rtoks e) := by
+theorem wsLen_lead : ∀ (lead r : Bytes), (∀ c ∈ lead, Path.isWs c = true) → wsLen r = 0 → wsLen (lead ++ r) = lead.length := by
+  intro lead
+  induction lead with
+  | nil => intro r _ h; simpa using h
+  | cons c t ih =>
+    intro r hl h
+    have hc : Path.isWs c = true := hl c (by simp)
+    simp [wsLen, hc, ih r (fun x hx => hl x (by simp [hx])) h]
+
+/-- the tokenizer on the canonical text of `e`, after any amount of leading white space, stores exactly the tokens of
+`rtoks e` (kinds and texts) -/
+theorem lex_render_lead (e : Expr) (hw : wf e = true) (lead : Bytes) (hl : ∀ c ∈ lead, Path.isWs c = true) :
+    (lex (lead ++ render e)).toOption.map (·.map ptOf) = some (rtoks e) := by
   obtain ⟨hnw, hseg⟩ := lxExpr e hw
-  let st0 : St := { acc := [], ntype := false, func := false, pos := 0, rest := render e }
+  let st0 : St := { acc := [], ntype := false, func := false, pos := lead.length, rest := render e }
   obtain ⟨st', hreach, hrest, hacc, _⟩ := hseg st0 [] (by simp [st0, render]) NW.nil (by intro b hb; cases hb; rfl)
   have htoks : rtoks e ≠ [] := by
     obtain ⟨k, hk1, _, _⟩ := LemmasParse.head_ok e hw []
@@ -901,20 +947,23 @@ theorem lex_render (e : Expr) (hw : wf e = true) : (lex (render e)).toOption.map
   have hnws : wsLen (render e) = 0 := by
     have := hnw [] NW.nil
     simpa [render, NW] using this
-  have hinit : St.skipWs { acc := [], ntype := false, func := false, pos := 0, rest := render e } = st0 := by
-    simp [St.skipWs, hnws, st0]
-  have hlex : lex (render e) = lexLoop ((render e).length + 1) st0 := by
+  have hinit : St.skipWs { acc := [], ntype := false, func := false, pos := 0, rest := lead ++ render e } = st0 := by
+    simp [St.skipWs, wsLen_lead lead _ hl hnws, st0]
+  have hlex : lex (lead ++ render e) = lexLoop ((lead ++ render e).length + 1) st0 := by
     unfold lex
-    have : (render e).isEmpty = false := by
-      cases h : render e with
-      | nil => exact absurd h hne
+    have : (lead ++ render e).isEmpty = false := by
+      cases h : lead ++ render e with
+      | nil => simp at h; exact absurd h.2 hne
       | cons _ _ => rfl
     simp only [this, Bool.false_eq_true, if_false, hinit]
-  have hnf := lex_no_fuel (render e)
-  rcases lexLoop_of_reach hreach hrest (by simpa [st0] using hne) ((render e).length + 1) with h | h
+  have hnf := lex_no_fuel (lead ++ render e)
+  rcases lexLoop_of_reach hreach hrest (by simpa [st0] using hne) ((lead ++ render e).length + 1) with h | h
   · rw [hlex, h]
     simp only [Except.toOption, Option.map_some, List.map_reverse, hacc]
     simp [st0]
   · rw [hlex] at hnf; exact absurd h hnf
+
+theorem lex_render (e : Expr) (hw : wf e = true) : (lex (render e)).toOption.map (·.map ptOf) = some (rtoks e) := by
+  simpa using lex_render_lead e hw [] (by intro c hc; cases hc)
 
 end LyModel.XPath.LemmasLexRt
